@@ -24,7 +24,12 @@ RULE = (
     "remove or rename a lock file created by another.  (b) caller level: every dulwich routine that writes through the "
     "lock protocol is run once to learn its events, then re-run with each event in {write, flush, fsync, chmod, "
     "replace, rename, close} failing with ENOSPC / EIO / EPERM / KeyboardInterrupt: every protected file must hold its "
-    "old or its complete new content and no *.lock may remain after the caller dropped its references.  Non-trivial: a "
+    "old or its complete new content and no *.lock may remain after the caller dropped its references.  (c) caller "
+    "level, two actors: 17 pairs of routines that go for the same protected file (refs, HEAD, packed-refs, index, "
+    "config, shallow) run under every schedule with <= 1 preemption plus DFS with bound 2 under a cap plus seeded random "
+    "placements; after every event each protected file under .git must hold a content that some sequential execution of "
+    "the two routines leaves there (complete old or complete new), no *.lock may remain, no actor may take or remove a "
+    "lock another holds.  Non-trivial: a "
     "schedule with a switch while some actor holds the lock / a fault at an event after the lock was taken; distinct "
     "by (programs, schedule) or (routine, state, k, fault)."
 )
@@ -448,6 +453,224 @@ def _part_faults(ctx, item):
 
 
 # ---------------------------------------------------------------------------
+# (c) caller level, two actors: routines that write the same protected file, interleaved
+
+
+def caller_pairs(ids):
+    """name -> [fnA(repo), fnB(repo)]: two routines that go for the same lock-protected file."""
+    from dulwich.index import IndexEntry
+
+    def idx(tag):
+        def run(r):
+            i = r.open_index()
+            i[b"by-" + tag] = IndexEntry(ctime=(1000, 0), mtime=(1000, 0), dev=1, ino=7, mode=0o100644, uid=0, gid=0, size=len(tag), sha=b"%040x" % len(tag), flags=0, extended_flags=0)
+            i.write()
+        return run
+
+    def cfg(key, val):
+        def run(r):
+            c = r.get_config()
+            c.set((b"user",), key, val)
+            c.write_to_path()
+        return run
+
+    new, loose, packed, both = b"refs/heads/new/x", b"refs/heads/loose", b"refs/heads/b", b"refs/heads/a"
+    R = lambda f: f  # noqa: E731
+    return {
+        "add_if_new|add_if_new": [R(lambda r: r.refs.add_if_new(new, ids[2])), R(lambda r: r.refs.add_if_new(new, ids[0]))],
+        "add_if_new|__setitem__": [R(lambda r: r.refs.add_if_new(new, ids[2])), R(lambda r: r.refs.__setitem__(new, ids[0]))],
+        "add_if_new|set_if_equals(create)": [R(lambda r: r.refs.add_if_new(new, ids[2])), R(lambda r: r.refs.set_if_equals(new, None, ids[1]))],
+        "set_if_equals|set_if_equals(loose)": [R(lambda r: r.refs.set_if_equals(loose, ids[0], ids[2])), R(lambda r: r.refs.set_if_equals(loose, ids[0], ids[1]))],
+        "set_if_equals|remove_if_equals(loose)": [R(lambda r: r.refs.set_if_equals(loose, ids[0], ids[2])), R(lambda r: r.refs.remove_if_equals(loose, ids[0]))],
+        "set_if_equals|set_if_equals(packed)": [R(lambda r: r.refs.set_if_equals(packed, ids[1], ids[2])), R(lambda r: r.refs.set_if_equals(packed, ids[1], ids[0]))],
+        "set_if_equals|remove_if_equals(loose+packed)": [R(lambda r: r.refs.set_if_equals(both, ids[1], ids[2])), R(lambda r: r.refs.remove_if_equals(both, ids[1]))],
+        "remove_if_equals|remove_if_equals(packed)": [R(lambda r: r.refs.remove_if_equals(packed, ids[1])), R(lambda r: r.refs.remove_if_equals(b"refs/tags/t", ids[1]))],
+        "set_symbolic_ref|set_symbolic_ref": [R(lambda r: r.refs.set_symbolic_ref(b"HEAD", b"refs/heads/b")), R(lambda r: r.refs.set_symbolic_ref(b"HEAD", b"refs/heads/a"))],
+        "set_symbolic_ref|__setitem__(HEAD)": [R(lambda r: r.refs.set_symbolic_ref(b"HEAD", b"refs/heads/b")), R(lambda r: r.refs.__setitem__(b"HEAD", ids[0]))],
+        "add_if_new|pack_refs": [R(lambda r: r.refs.add_if_new(new, ids[2])), R(lambda r: r.refs.pack_refs(all=True))],
+        "set_if_equals|pack_refs": [R(lambda r: r.refs.set_if_equals(loose, ids[0], ids[2])), R(lambda r: r.refs.pack_refs(all=True))],
+        "remove_if_equals|pack_refs": [R(lambda r: r.refs.remove_if_equals(both, ids[1])), R(lambda r: r.refs.pack_refs(all=True))],
+        "add_packed_refs|remove_if_equals(packed)": [R(lambda r: r.refs.add_packed_refs({loose: ids[0]})), R(lambda r: r.refs.remove_if_equals(b"refs/tags/t", ids[1]))],
+        "Index.write|Index.write": [idx(b"A"), idx(b"BB")],
+        "ConfigFile.write_to_path|ConfigFile.write_to_path": [cfg(b"name", b"A"), cfg(b"email", b"b@example.com")],
+        "update_shallow|update_shallow": [R(lambda r: r.update_shallow({ids[1]}, None)), R(lambda r: r.update_shallow({ids[0]}, None))],
+    }
+
+
+def _watched(rel):
+    """Protected files: everything under .git that is replaced through the lock protocol (objects and logs are not)."""
+    return rel.startswith(".git" + os.sep) and not rel.startswith((os.path.join(".git", "objects"), os.path.join(".git", "logs"))) and not _is_temp(rel)
+
+
+def _watched_map(root):
+    return {k: v for k, v in file_map(root).items() if _watched(k)}
+
+
+def _caller_actor(repo, fn, out, name):
+    def prog():
+        from dulwich.repo import Repo
+
+        with warnings.catch_warnings():
+            warnings.simplefilter("ignore")
+            r = Repo(repo)
+            try:
+                try:
+                    out[name] = ("ret", fn(r))
+                except Exception as e:
+                    out[name] = ("exc", type(e).__name__)
+            finally:
+                r.close()
+
+    return prog
+
+
+def _sequential_contents(ctx, template, fns):
+    """Per watched file, every content it holds at a quiescent point of some sequential execution (either order)."""
+    allowed = {}
+    snaps = []
+
+    def snap(repo):
+        snaps.append(_watched_map(repo))
+
+    for order in ((0, 1), (1, 0)):
+        work = ctx.scratch.new("seq")
+        repo = os.path.join(work, "repo")
+        shutil.copytree(template, repo, symlinks=True)
+        snap(repo)
+        for i in order:
+            out = {}
+            _caller_actor(repo, fns[i], out, "x")()
+            gc.collect()
+            snap(repo)
+        shutil.rmtree(work, ignore_errors=True)
+    for m in snaps:
+        for k, v in m.items():
+            allowed.setdefault(k, set()).add(v)
+    for k in allowed:
+        if any(k not in m for m in snaps):
+            allowed[k].add(None)  # absent at some quiescent point
+    return allowed
+
+
+def run_callers(ctx, template, ids, pair, strategy, allowed, case, check="callers"):
+    fns = caller_pairs(ids)[pair]
+    work = ctx.scratch.new("cl")
+    repo = os.path.join(work, "repo")
+    shutil.copytree(template, repo, symlinks=True)
+    gitdir = os.path.join(repo, ".git")
+    skip = (os.path.join(gitdir, "objects"), os.path.join(gitdir, "logs"))
+
+    def visible(ev):
+        if ev.op == "start":
+            return True
+        for q in (ev.path, ev.path2):
+            if q and q.startswith(gitdir) and not q.startswith(skip):
+                return True
+        return False
+
+    sched = Scheduler(strategy, visible=visible)
+    ip = Interposer(work, sched)
+    bad = []
+    orig_before = sched.before
+
+    def look(where):
+        cur = _watched_map(repo)
+        for k in set(cur) | set(allowed):
+            v = cur.get(k)
+            if k not in allowed:
+                if not bad:
+                    bad.append((k, v, where, "a file no sequential execution creates"))
+            elif v not in allowed[k] and not bad:
+                bad.append((k, v, where, "content no sequential execution leaves there"))
+
+    def before(ip_, ev):
+        if not bad:
+            look("before " + ev.brief(repo))
+        orig_before(ip_, ev)
+
+    sched.before = before
+    out = {}
+    ip.install()
+    try:
+        results = sched.run(ip, [(n, _caller_actor(repo, fn, out, n)) for n, fn in zip("AB", fns)])
+    finally:
+        ip.uninstall()
+    gc.collect()
+    for n, r in results.items():
+        if r[0] != "ok":
+            raise HarnessError(f"caller actor {n} crashed outside its routine: {r}")
+    if not bad:
+        look("the end")
+    if bad:
+        k, v, where, why = bad[0]
+        ctx.fail(f"C07:callers:{pair}:partial-content", f"{pair}: {k} holds {v!r} {where}: {why} (outcomes {out})", check, case)
+    left = sorted(k for k in file_map(repo) if k.endswith(".lock"))
+    if left:
+        ctx.fail(f"C07:callers:{pair}:lock-left-behind", f"{pair}: {left} still exist after both routines returned ({out})", check, case)
+    # ownership of every lock file
+    owners = {}
+    for ev in ip.trace:
+        if ev.exc or not ev.path or not ev.path.endswith(".lock"):
+            continue
+        if ev.op == "open-w" and ev.extra == "excl":
+            if owners.get(ev.path) is not None:
+                ctx.fail(f"C07:callers:{pair}:two-holders", f"{ev.actor} obtained {os.path.relpath(ev.path, repo)} while {owners[ev.path]} holds it", check, case)
+            owners[ev.path] = ev.actor
+        elif ev.op in ("remove", "replace", "rename"):
+            if owners.get(ev.path) not in (None, ev.actor):
+                ctx.fail(f"C07:callers:{pair}:foreign-lock-{ev.op}", f"{ev.actor} did {ev.op} on {os.path.relpath(ev.path, repo)} created by {owners[ev.path]}", check, case)
+            owners[ev.path] = None
+    info = dict(schedule=[c for _, c in sched.decisions], preempted=_interleaved(ip.trace, visible), out=dict(out), brief=[e.brief(repo) for e in ip.trace if e.mutating])
+    shutil.rmtree(work, ignore_errors=True)
+    return info
+
+
+def _interleaved(trace, visible):
+    trace = [ev for ev in trace if ev.op != "start" and visible(ev)]
+    first, last = {}, {}
+    for i, ev in enumerate(trace):
+        first.setdefault(ev.actor, i)
+        last[ev.actor] = i
+    return any(first[a] < i < last[a] for i, ev in enumerate(trace) for a in first if a != ev.actor)
+
+
+def _part_callers(ctx, item):
+    import random
+
+    from ..interpose import PreemptAt
+
+    pair, max_runs = item
+    template, ids = _prepare(ctx)
+    allowed = _sequential_contents(ctx, template, caller_pairs(ids)[pair])
+    n = 0
+    steps = 1
+
+    def one(strategy):
+        nonlocal n, steps
+        case = dict(pair=pair)
+        info = run_callers(ctx, template, ids, pair, strategy, allowed, case)
+        case["schedule"] = info["schedule"]
+        n += 1
+        steps = max(steps, len(info["schedule"]))
+        ctx.case(h64("callers", pair, tuple(info["schedule"])), nontrivial=info["preempted"],
+                 labels=("callers", "callers:" + pair) + (("callers-interleaved",) if info["preempted"] else ()) + tuple(f"callers-outcome:{v[0]}:{v[1] if v[0] == 'exc' else ''}" for v in info["out"].values()),
+                 sample=dict(pair=pair, schedule=info["schedule"], outcomes=info["out"], events=info["brief"]) if info["preempted"] and n % 25 == 4 else None)
+
+    ex = DFSExplorer(1, max_runs=max_runs)
+    while ex.more():
+        one(ex.next_run())
+        ex.done_run()
+    ctx.label("callers-bound1-exhaustive" if ex.exhausted else "callers-bound1-capped")
+    ex2 = DFSExplorer(2, max_runs=max(0, max_runs - n))
+    while ex2.more():
+        one(ex2.next_run())
+        ex2.done_run()
+    rnd = random.Random(h64(ctx.seed, pair))
+    for _ in range(ctx.scale(15, 300) if not ex2.exhausted else 0):
+        one(PreemptAt({rnd.randrange(steps): 0 for _ in range(rnd.choice([2, 3]))}))
+
+
+# ---------------------------------------------------------------------------
 
 
 def selftest(ctx):
@@ -477,6 +700,7 @@ def run(ctx):
     names = sorted(n for n in routines(ids) if n != "Repo._put_named_file" or hasattr(_R, "_put_named_file"))
     ctx.note("routines", names)
     ctx.parallel(_part_faults, [(n, r, 4) for n in names for r in range(4)])
+    ctx.parallel(_part_callers, [(pair, ctx.scale(120, 6000)) for pair in sorted(caller_pairs(ids))])
     ctx.note("exhaustive", True)
 
 
@@ -489,5 +713,12 @@ def replay(ctx, check, case):
         before = file_map(template)
         n, after, _ = _profile(ctx, template, ids, case["routine"])
         run_fault(ctx, template, ids, case["routine"], case["k"], case["fault"], before, after)
+    elif check == "callers":
+        # a pinned schedule goes stale when the code gains or loses a file-system call: explore the pair instead
+        template, ids = _prepare(ctx)
+        allowed = _sequential_contents(ctx, template, caller_pairs(ids)[case["pair"]])
+        run_callers(ctx, template, ids, case["pair"], FixedSchedule(case.get("schedule", [])), allowed, case)
+        if not ctx.violations:
+            _part_callers(ctx, (case["pair"], 400))
     else:
         raise HarnessError(f"unknown check {check!r}")
